@@ -488,7 +488,7 @@ func main() {
 		"evaluations":                   tallyCases + w.Cases + w.QueryCases,
 		"distinct_nontrivial":           distinct,
 		"rule": "part 1 (tally): for each validator power vector, EVERY ordered list of length 0.." + strconv.Itoa(maxLen) + " over the entry kinds (thorough: all; quick: all but X01) {Vi = valid signature of validator i over the request (one kind per validator, incl. the zero-power one), W0 = V0's key with V0's signature over a different message, N = genuine signature of a non-validator key, X01 = V0's key with V1's signature, PS/PL = V0's key one byte short/long, SS/SL = V0's signature halved/one byte long, E = empty entry}; duplicates are repeated letters; each list is put into an add_peer request and offered to the real AdminOp.ExecTX. " +
-			"part 2 (sequence): requests = {add, update, remove, unknown command, unknown type} × targets {new key K, validator B, signer A, zero-power D} × nonce {n−1,n,n+1} × {bound sender, other sender, second administrator Y} × signature lists {all validators, exactly 2/3, one validator ×3, foreign keys, other message} × channel {governance contract, precompile 0xfe called directly with forged sender bytes} + a request signed by all validators whose attributes name NO account (empty addr) + literal replays of earlier requests by the first submitter, the second administrator Y and a third fresh account Z (" + strconv.Itoa(len(alphabet)) + " letters; core " + strconv.Itoa(nCore) + ", mini " + strconv.Itoa(nMini) + "; block alphabet " + strconv.Itoa(nBlk) + " = one change, the same change asked again by the same and by a second administrator, another change of that key, add/update/remove of other keys, all properly authorised, so that one block holds up to three accepted requests of which one asks for the state its key has by then; unbound alphabet " + strconv.Itoa(nUnb) + " = the empty-addr request, bound changes by X and Y, replays by X, Y, Z through both channels); " + tierRule + "; every case runs on 2 lock-step replicas (consensus pattern Copy→ApplyBlock) plus late replicas (in-place ApplyBlock; thorough also Save/LoadState + fresh plugins between blocks); judged per request (accepted iff authorised; a request naming no account may be accepted or not, but the literal bytes of a request that was accepted are never accepted again), per block (next set = reference; a difference on a key named by at most one accepted request is never attributed to the known same-block defect; the set recorded as in force at the height = the set before the block) and across replicas (membership, powers, hash, recorded set in force). " +
+			"part 2 (sequence): requests = {add, update, remove, unknown command, unknown type} × targets {new key K, validator B, signer A, zero-power D} × nonce {n−1,n,n+1} × {bound sender, other sender, second administrator Y} × signature lists {all validators, exactly 2/3, one validator ×3, foreign keys, other message} × channel {governance contract, precompile 0xfe called directly with forged sender bytes} + a request signed by all validators whose attributes name NO account (empty addr) + literal replays of earlier requests by the first submitter, the second administrator Y and a third fresh account Z + replays by the first submitter whose unsigned envelope field AdminOPCmd.Nonce is set to its current account nonce (" + strconv.Itoa(len(alphabet)) + " letters; core " + strconv.Itoa(nCore) + ", mini " + strconv.Itoa(nMini) + "; block alphabet " + strconv.Itoa(nBlk) + " = one change, the same change asked again by the same and by a second administrator, another change of that key, add/update/remove of other keys, all properly authorised, so that one block holds up to three accepted requests of which one asks for the state its key has by then; unbound alphabet " + strconv.Itoa(nUnb) + " = the empty-addr request, bound changes by X and Y, replays by X, Y, Z through both channels); " + tierRule + "; every case runs on 2 lock-step replicas (consensus pattern Copy→ApplyBlock) plus late replicas (in-place ApplyBlock; thorough also Save/LoadState + fresh plugins between blocks); judged per request (accepted iff authorised; a request naming no account may be accepted or not, but the literal bytes of a request that was accepted are never accepted again), per block (next set = reference; a difference on a key named by at most one accepted request is never attributed to the known same-block defect; the set recorded as in force at the height = the set before the block) and across replicas (membership, powers, hash, recorded set in force). " +
 			"part 3 (query): the same requests sent as read-only contract queries (current state / state of an earlier height) to one of two replicas running the real EVMApp. " +
 			"distinct_nontrivial = distinct (set, verdict, entitled power, list shape) classes of part 1 + distinct (command, channel, model verdict, implementation verdict, recorded) and block-outcome classes of parts 2/3; states = distinct (validator set, account nonces) model states reached + tally classes",
 		"exhaustive":         true,
